@@ -28,7 +28,7 @@ Same == UNCHANGED vars
 TReset     == IsEvent("reset") /\ word' = word + 1 /\ lost' = FALSE
               /\ lock' = "free" /\ want' = FALSE /\ task' = "none" /\ doneq' = 0 /\ tail' = 0
               /\ nreq' = 0 /\ runs' = 0 /\ active' = 0 /\ hist' = <<>>
-              /\ mapEmpty' = FALSE /\ closing' = FALSE /\ skipped' = 0
+              /\ mapEmpty' = FALSE /\ closing' = FALSE /\ skipped' = 0 /\ owed' = FALSE /\ stale' = FALSE
 TSchedule  == IsEvent("schedule") /\ Rec[l].lock = lock /\ ScheduleRun /\ UNCHANGED <<word, lost>>
 TRunStart  == IsEvent("run_start") /\ task = "probing" /\ Rec[l].n = runs /\ Same /\ UNCHANGED <<word, lost>>
 TReport    == IsEvent("report_done") /\ Probe /\ UNCHANGED <<word, lost>>
@@ -38,7 +38,7 @@ TTryRun    == IsEvent("try_run") /\ Rec[l].lock = lock /\ Rec[l].want = want /\ 
 \* deviation: try_run sees no queued update although one was requested and never started
 TLostWant  == IsEvent("try_run") /\ Rec[l].lock = lock /\ Rec[l].want = FALSE /\ want = TRUE
               /\ doneq > 0 /\ doneq' = doneq - 1 /\ want' = FALSE /\ lost' = TRUE
-              /\ UNCHANGED <<lock, task, tail, nreq, runs, active, mapEmpty, closing, skipped, hist, word>>
+              /\ UNCHANGED <<lock, task, tail, nreq, runs, active, mapEmpty, closing, skipped, owed, stale, hist, word>>
 TRunFinish == IsEvent("run_finish") /\ Same /\ UNCHANGED <<word, lost>>
 TQuiescent == IsEvent("quiescent") /\ Rec[l].lock = lock /\ Rec[l].runs = runs /\ doneq = 0 /\ Same /\ UNCHANGED <<word, lost>>
 
